@@ -120,6 +120,12 @@ def run(ctx, report):
             pp = sg_.lstrip('\r\n ').split(src_d[1])
             if pp[0] == 'GS' and (len(pp) < 7 or pp[6] == ''):
                 sit = ':source-gs06-empty'
+        # an interchange acknowledgement segment (TA1) stands between the last GE and the IEA, outside every group
+        ids_ = [x.strip().split('*')[0] for x in ack.split('~') if x.strip()]
+        for k_, sid_ in enumerate(ids_):
+            if sid_ == 'TA1' and not (k_ > 0 and ids_[k_ - 1] in ('GE', 'TA1', 'ISA') and k_ + 1 < len(ids_) and ids_[k_ + 1] in ('IEA', 'TA1', 'GS')):
+                report.fail('C06:structure:TA1-inside-group%s' % sit, 'the TA1 stands between %s and %s' % (
+                    ids_[k_ - 1] if k_ else None, ids_[k_ + 1] if k_ + 1 < len(ids_) else None), inp)
         for p in a.problems:
             report.fail('C06:structure:%s%s' % (p.split(':')[0].split(' but')[0][:40], sit), 'acknowledgement structure: %s' % p, inp)
         errs, exn = reread(ack)
@@ -169,6 +175,18 @@ def run(ctx, report):
                 p_ = p_[:2] + ['']
             out.append(d[1].join(p_))
         cases.append(('envmut', 'empty group control number map=%s' % name, docgen.encode(out, d, '')))
+    # interchanges that REQUEST an interchange acknowledgement (ISA14 = 1): the acknowledgement then carries a TA1, which belongs
+    # between the last GE and the IEA
+    extra = []
+    for (kind, what, text) in cases[:(120 if thorough else 30)]:
+        if len(text) > 106 and text.startswith('ISA') and kind in ('map', 'corpus', 'conformant', 'bodymut'):
+            e = text[3]
+            parts = text[:106].split(e)
+            if len(parts) >= 17 and parts[14] == '0':
+                parts[14] = '1'
+                extra.append((kind, what + ' ISA14=1', e.join(parts) + text[106:]))
+    report.count('docs:ta1-requested', len(extra))
+    cases += extra
     pipecorr.run(report, ctx, rng, cases, 2, oracle, force=lambda m: m[0] == 'A')
     logging.disable(logging.NOTSET)
 
